@@ -238,10 +238,11 @@ Section AnyDecode.
     match fuel with
     | 0 => Err EFuel
     | S f =>
-        (* populateLocalDefaultValues re-parses the literal with the JSON reader, whatever the reader being used *)
+        (* populateLocalDefaultValues re-parses the literal with NewJsonReader (no excluded fields, scopeToIgnore 0), whatever the
+           reader being used *)
         let lit_value (t' : ty) (lit : bytes) : option value :=
           match parse_json lit with
-          | Some jd => match decJ e wildcard excl ignore parseF f true t' jd tracker0 with Ok (v, _) => Some v | _ => None end
+          | Some jd => match decJ e wildcard ps_empty 0 parseF f true t' jd tracker0 with Ok (v, _) => Some v | _ => None end
           | None => None
           end in
         let fix fill_defaults (fs : list field) (vs : list (option value)) : list (option value) :=
